@@ -505,3 +505,111 @@ def bool_arg(n: size, b: bool, c: bool, x: f32[n]):
     if c:
         x[0] += 1.0
 ''')
+
+add("lift_reduce_c", '''
+@proc
+def lift_reduce_c(n: size, a: f32, x: f32[n], y: f32, z: f32[n]):
+    y = 0.0
+    for i in seq(0, n):
+        y += a * x[i]
+    for j in seq(0, n):
+        z[j] = 0.0
+        for k in seq(0, n):
+            z[j] += a * x[k]
+''')
+
+add("sinkable", '''
+@proc
+def sinkable(n: size, k: index, x: f32[n], y: f32[n]):
+    t: f32
+    for i in seq(0, n):
+        t = x[i]
+        y[i] = t + 1.0
+    u: f32[2]
+    if k < 2:
+        u[0] = 1.0
+        y[0] = u[0]
+''')
+
+add("dead_buffers", '''
+@proc
+def dead_buffers(n: size, x: f32[n], y: f32[n]):
+    unused: f32[n]
+    t: f32[n]
+    for i in seq(0, n):
+        t[i] = x[i]
+    for i in seq(0, n):
+        y[i] = x[i] + 1.0
+''')
+
+add("small_const_buf", '''
+@proc
+def small_const_buf(x: f32[4], y: f32[2]):
+    t: f32[2]
+    t[0] = x[0] + x[1]
+    t[1] = x[2] + x[3]
+    y[0] = t[0] * t[1]
+    y[1] = t[1]
+    m: f32[4, 6]
+    for i in seq(0, 4):
+        for j in seq(0, 6):
+            m[i, j] = x[i]
+    for i in seq(0, 4):
+        y[0] += m[i, 5 - i]
+''')
+
+add("dead_code", '''
+@proc
+def dead_code(n: size, x: f32[n + 1]):
+    for i in seq(0, n):
+        if i < n:
+            x[i] = 1.0
+        else:
+            x[i] = 2.0
+        if n < 0:
+            x[i] = 3.0
+    for j in seq(0, 0):
+        x[0] = 4.0
+    if n > 0:
+        x[n] = 5.0
+    else:
+        x[0] = 6.0
+''')
+
+add("write_patterns", '''
+@proc
+def write_patterns(n: size, x: f32[n], y: f32[n], z: f32[n]):
+    for i in seq(0, n):
+        x[i] = x[i] + y[i]
+        y[i] = 1.0
+        y[i] += z[i]
+        z[i] += x[i]
+        z[i] += y[i]
+        x[i] = 2.0
+        x[i] = z[i]
+''')
+
+add("cfg_unread", '''
+@config
+class CfgE:
+    a: index
+    b: index
+    s: f32
+
+@proc
+def cfg_unread(n: size, x: f32[n]):
+    CfgE.a = 1
+    for i in seq(0, n):
+        x[i] = CfgE.s
+    CfgE.b = 2
+    CfgE.a = 3
+''')
+
+add("reassoc", '''
+@proc
+def reassoc(n: size, x: f32[n], y: f32[n], z: f32[n]):
+    for i in seq(0, n):
+        z[i] = x[i] + (y[i] + z[i])
+        y[i] = x[i] * (y[i] * 3.0)
+        x[i] = (x[i] + y[i]) + (z[i] + 1.0)
+''')
